@@ -353,6 +353,62 @@ func main() {
 	for size := 0; size <= k; size++ {
 		rec(0, nil, size)
 	}
+	// (1b) large entry sets (the sort used by the index behaves differently above 12 elements):
+	// every realizable path of the universe plus 6 extra names, inserted in three orders, then every
+	// path re-staged with a new id and every second path deleted, verified after each call
+	if shard == 0 {
+		var big []string
+		for _, p := range universe {
+			if p != "d" {
+				big = append(big, p)
+			}
+		}
+		big = append(big, "f01", "f02", "f03", "f04", "f05", "f06")
+		orders := [][]string{append([]string{}, big...), nil, nil}
+		for i := len(big) - 1; i >= 0; i-- {
+			orders[1] = append(orders[1], big[i])
+		}
+		for i := 0; i < len(big); i += 2 {
+			orders[2] = append(orders[2], big[i])
+		}
+		for i := 1; i < len(big); i += 2 {
+			orders[2] = append(orders[2], big[i])
+		}
+		for _, ord := range orders {
+			idx := fresh()
+			model := map[string]string{}
+			var ops []op
+			ok := true
+			step := func(o op) {
+				if !ok {
+					return
+				}
+				ops = append(ops, o)
+				if !apply(idx, model, o, ops) || !checkFile(model, ops, "after "+o.Op+" "+o.Path) || !checkLoaded(idx, model, ops, "live instance") {
+					ok = false
+				}
+			}
+			for _, p := range ord {
+				step(op{"update", p, 1})
+			}
+			for _, p := range ord {
+				step(op{"update", p, 2})
+				step(op{"update", p, 2})
+			}
+			if ok {
+				checkQueries(idx, model, ops)
+			}
+			for i, p := range ord {
+				if i%2 == 0 {
+					step(op{"delete", p, 0})
+				}
+			}
+			if ok {
+				checkQueries(idx, model, ops)
+				distinct["big:"+ord[0]] = true
+			}
+		}
+	}
 	// (2) DFS over histories on ONE live instance: update(new id) / update(same id) / delete over 6 paths
 	hp := []string{"d/x", "d-old", "d.x", "ad/x", "d0", "a(b"}
 	var alphabet []op
